@@ -363,7 +363,7 @@ func init() {
 			run(sc, act)
 			return r.Finish()
 		}
-		n := 1500
+		n := 6000
 		if thorough() {
 			n = 60000
 		}
